@@ -289,9 +289,7 @@ func (s *XSec) Decrypt(num uint32, gen uint16, data []byte) ([]byte, error) {
 	if !s.AES {
 		return rc4Crypt(key, data), nil
 	}
-	if len(data) == 0 {
-		return nil, nil
-	}
+	// (the empty string, too, is an IV and one block of padding: 7.6.3.1)
 	if len(data) < 32 || len(data)%16 != 0 {
 		return nil, fmt.Errorf("AES data of %d bytes is not IV + whole blocks", len(data))
 	}
